@@ -103,7 +103,14 @@ func FamilyOf(prop string, seed, i uint64) string {
 			return "reconn" // SUBACK return codes (failure, downgrade) meeting re-subscription
 		}
 		return "base"
-	case "C04", "C07", "C11", "C15", "C20":
+	case "C11":
+		if i >= uint64(len(C11Matrix())) && i%5 == 4 {
+			// the reconnecting client as a whole: its Connect / Disconnect with
+			// contexts, and "nothing blocks forever" under cuts and parked sites
+			return "reconn"
+		}
+		return "base"
+	case "C04", "C07", "C15", "C20":
 		return "base"
 	case "C16":
 		if i%3 == 0 {
@@ -374,7 +381,7 @@ func genReconn(r *Rng, prop string) *Scenario {
 		case "C18", "C19":
 			w = []int{1, 1, 0, 0, 0, 0, 0, 0, 0, 0, 8, 4, 1}
 		case "C13":
-			w = []int{1, 1, 1, 1, 0, 1, 0, 1, 0, 0, 0, 0, 8}
+			w = []int{1, 1, 1, 1, 1, 1, 0, 1, 0, 0, 0, 0, 8}
 		case "C16":
 			w = []int{3, 3, 3, 3, 1, 3, 1, 1, 0, 0, 0, 0, 3}
 		default:
@@ -409,6 +416,9 @@ func genReconn(r *Rng, prop string) *Scenario {
 			f.N = int(r.between(0, int64(nreq)+2))
 			f.Prefix = int(r.between(0, 6))
 			f.Code = byte(r.IntN(2)) // 1: the transport's error wraps io.EOF
+			if (prop == "C11" || prop == "C09" || prop == "C13" || prop == "C16") && r.chance(0.4) {
+				f.Code = 2 // writes fail, the read side never reports anything
+			}
 		case "cutAt", "silentFrom":
 			f.AtUs = r.between(0, lastOp+2*maxBackoff)
 		case "connackRefuse":
@@ -454,7 +464,7 @@ func genReconn(r *Rng, prop string) *Scenario {
 	}
 
 	// Disconnect / cancellation for lifecycle properties
-	if prop == "C09" || prop == "C16" {
+	if prop == "C09" || prop == "C16" || prop == "C11" {
 		if r.chance(0.6) {
 			at := r.between(0, lastOp+3*maxBackoff)
 			op := Op{AtUs: at, Actor: 3, Kind: "disconnect"}
@@ -519,9 +529,9 @@ func genReconn(r *Rng, prop string) *Scenario {
 	// liveness-at-judgement or ordering rules; C11/C13/C18 time their oracles to
 	// the fake instant of a cause and stay yield-free)
 	switch prop {
-	case "C01", "C02", "C03", "C08", "C09", "C12", "C16", "C17":
+	case "C01", "C02", "C03", "C08", "C09", "C11", "C12", "C16", "C17":
 		if !earlyPub && r.chance(0.25) {
-			sites := []string{"app.onError", "app.onError", "app.connStateActive", "app.transportClose", "reconn.afterDial", "reconn.afterSetClient", "reconn.afterConnect", "reconn.keepAliveFailed", "reconn.connLost", "reconn.disconnectSeen", "retry.afterTask", "base.afterServe", "base.beforeClosedState", "pub.afterPubRec"}
+			sites := []string{"app.onError", "app.onError", "app.connStateActive", "app.transportClose", "reconn.afterDial", "reconn.afterSetClient", "reconn.afterConnect", "reconn.keepAliveFailed", "reconn.connLost", "reconn.disconnectSeen", "retry.afterTask", "base.afterServe", "base.beforeClosedState", "base.afterConnAck", "base.afterConnAck", "pub.afterPubRec"}
 			cfg.Yields = map[string]int64{}
 			for i := 0; i < int(r.between(1, 3)); i++ {
 				cfg.Yields[sites[r.IntN(len(sites))]] = r.pickI(10, 100, 500, 2000)
